@@ -97,9 +97,16 @@ steps = []
 ladder = []
 for stmt in ep.body:
     if isinstance(stmt, ast.Try):
-        if len(stmt.body) != 1 or ast.unparse(stmt.body[0]) != "exit_code = await self.run()":
-            die("try body of entry_point is not `exit_code = await self.run()`")
-        steps.append("try_run")
+        for b in stmt.body:
+            bs = ast.unparse(b)
+            if bs == "exit_code = await self.run()":
+                steps.append("try:run")
+            elif bs == "await self._db_insert_run_meta()":
+                steps.append("try:db_insert")
+            else:
+                steps.append("try:unknown<" + bs.split("\n")[0][:60] + ">")
+        if "try:run" not in steps:
+            die("`exit_code = await self.run()` not found in the try body of entry_point")
         if stmt.orelse:
             die("unexpected else: on the try of entry_point")
         for h in stmt.handlers:
@@ -173,6 +180,28 @@ if not any(c.endswith(".connect") and "load_transport" in c for c in scanner_set
     die("Scanner.setup does not connect the transport")
 scanner_disconnects = "self.db_handler.disconnect" in scanner_td
 
+# ---- DBHandler.connect: does a failure after aiosqlite.connect() close the connection again? ---------------
+import gallia.db.handler as dbh  # noqa: E402
+
+conn = fn_ast(dbh.DBHandler.connect)
+connect_cleans = False
+seen_open = False
+for stmt in conn.body:
+    if "aiosqlite.connect" in calls_in(stmt):
+        seen_open = True
+    if seen_open and isinstance(stmt, ast.Try):
+        for h in stmt.handlers:
+            if h.type is not None and ast.unparse(h.type) in ("BaseException", "Exception") and \
+                    "self.connection.close" in calls_in(h) and any(isinstance(n, ast.Raise) for n in ast.walk(h)):
+                guarded = calls_in(ast.Module(body=stmt.body, type_ignores=[]))
+                if "self.check_version" in guarded and "self.connection.executescript" in guarded:
+                    connect_cleans = True
+        for s2 in stmt.finalbody:
+            if "self.connection.close" in calls_in(s2):
+                connect_cleans = True
+if not seen_open:
+    die("aiosqlite.connect not found in DBHandler.connect")
+
 # ---- run_hook -----------------------------------------------------------------------------------------------
 rh = fn_ast(base.BaseCommand.run_hook)
 tries = [s for s in rh.body if isinstance(s, ast.Try)]
@@ -232,6 +261,9 @@ def runShape : List String := {slist(run_shape)}
 def scannerTeardown : List String := {slist(scanner_td)}
 def udsTeardown : List String := {slist(uds_td)}
 def scannerTeardownDisconnectsDb : Bool := {"true" if scanner_disconnects else "false"}
+
+/-- `DBHandler.connect` closes the connection again when the pragmas / schema / version check fail -/
+def dbConnectClosesOnFailure : Bool := {"true" if connect_cleans else "false"}
 
 /-- names bound only in the `try` body of `run_hook` but read in its failure handler / afterwards -/
 def hookUnboundNames : List String := {slist(hook_unbound)}
